@@ -519,6 +519,15 @@ def make_suggest(shape):
                     res["pristine"] = run_suggest(it, st, ctx, ps3, term, selections, cfg)
                 except Unsupported as ex:
                     ctx["pristine_refused"] = str(ex)
+            if mode == "reconfig_pair":
+                # the same object after the front end changed options (update_engine keeps the method object when the layout stays): the second
+                # configuration's English / ANSI / smart-quote switches are independent symbols; against a pristine object under that configuration
+                cfg2, opts2 = mk_config(prog, st, dict(fixed, **shape.get("fixed2", {})), tag="opt2_")
+                ctx["opts2"] = opts2
+                res["second"] = run_suggest(it, st, ctx, ps, term, selections, cfg2)
+                ps3 = it.call_function(prog.find_fn("PhoneticSuggestion", "new"), [ps_field(prog, ps, "user_autocorrect")])
+                ps3.fields[prog.structs["PhoneticSuggestion"].index("cache")] = deep_copy(cache0)
+                res["pristine"] = run_suggest(it, st, ctx, ps3, term, selections, cfg2)
             if mode == "learn":
                 res.update(learn_roundtrip(it, st, ctx, res["first"]))
             return res
@@ -534,6 +543,8 @@ def make_suggest(shape):
         def inputs(m):
             orc = c["orc"]
             d = dict(term=model_string(m, c["term"]), opts=opts_json(m, c["opts"]), mode=mode, oracle_answers=[])
+            if "opts2" in c:
+                d["opts_after_update"] = opts_json(m, c["opts2"])
             for e in orc.log[:40]:
                 name = e[0]
                 arg = model_string(m, e[1])
@@ -728,6 +739,13 @@ def suggest_clauses(st, it, c, res, mode):
             if len(k) == len(word) and all((a is b) or (not is_sym(a) and not is_sym(b) and a == b) for a, b in zip(k, word)):
                 own = v
         complete = []
+        just = {i: [] for i in range(L)}       # per list item: (it is this dictionary-derived form, it carries that form's distance)
+        own_hits = orc.memo.get(("dict", key_of_elems(word))) or []
+        for w2, d2 in own_hits:
+            won, woff = qpre_on + list(w2) + qtrail_on, cpre + list(w2) + ctrail
+            for i2, x in enumerate(items):
+                if cls(x) == V["Other"]:
+                    just[i2].append((z3.If(quote, seq_eq(texts[i2], won), seq_eq(texts[i2], woff)), simp(bv(num(x), 8) == bv(d2, 8))))
         for i in range(1, len(word)):
             sk = ("suffix", key_of_elems(word[i:]))
             sfx = orc.memo.get(sk)
@@ -741,8 +759,19 @@ def suggest_clauses(st, it, c, res, mode):
                     won, woff = qpre_on + joined + qtrail_on, cpre + joined + ctrail
                     present = z3.If(quote, texts_equal_any(texts, won), texts_equal_any(texts, woff))
                     complete.append(z3.Implies(z3.And(z3.Not(silent), cond), present))
+                    if cls(base) == V["Other"]:
+                        for i2, x in enumerate(items):
+                            if cls(x) == V["Other"]:
+                                just[i2].append((z3.And(z3.Not(silent), cond, z3.If(quote, seq_eq(texts[i2], won), seq_eq(texts[i2], woff))),
+                                                 simp(bv(num(x), 8) == bv(num(base), 8))))
                 clauses.append(("cover:suffix_join", z3.Not(silent)))
         clauses.append(("suffix_forms_complete", z3.And(complete) if complete else True))
+        # a suffix-built word inherits the distance of its base, a dictionary word carries its own: the number the sort sees is that distance
+        carry = []
+        for i2, alts in just.items():
+            if alts:
+                carry.append(z3.Implies(z3.Or([m_ for m_, _ in alts]), z3.Or([z3.And(m_, e_) for m_, e_ in alts])))
+        clauses.append(("dictionary_candidates_carry_their_distance", z3.And(carry) if carry else True))
     # ---- C05/C08: the memo entry written for the word holds its direct candidates only (what the suffix joining of longer words relies on)
     if word is not None and len(word) > 0 and mode == "single":
         def same_key(k1, k2):
@@ -792,6 +821,20 @@ def suggest_clauses(st, it, c, res, mode):
             kept = [z3.And(seq_eq(list(k), ek), seq_eq(v2.elems, ev)) for k, v2 in c["selections"].entries if len(k) == len(ek) and len(v2.elems) == len(ev)]
             clauses.append(("other_learned_entries_survive_a_commit", z3.Or(kept) if kept else False))
         clauses.append(("cover:learn", True))
+    # ---- C11 / C16 / C18: an option change takes effect at once, whatever the object has memoised under the old options
+    if mode == "reconfig_pair":
+        lst2, sel2 = res["second"]
+        lst3, sel3 = res["pristine"]
+        t2 = [rank_text(x) for x in lst2.items]
+        t3 = [rank_text(x) for x in lst3.items]
+        same = z3.And([seq_eq(a, b) for a, b in zip(t2, t3)]) if len(t2) == len(t3) else z3.BoolVal(False)
+        clauses.append(("reconfigured_context_gives_the_list_of_a_new_one", same))
+        clauses.append(("reconfigured_context_gives_the_preselection_of_a_new_one", simp(bv(sel2, 64) == bv(sel3, 64))))
+        ansi2 = zb(c["opts2"]["ansi"])
+        emo2 = [i for i, x in enumerate(lst2.items) if cls(x) == V["Emoji"]]
+        raw2 = [i for i, x in enumerate(lst2.items) if cls(x) == V["Last"] and not is_sym(num(x)) and num(x) in (1, 3)]
+        clauses.append(("ansi_offers_no_emoji_or_raw_text", z3.Implies(ansi2, z3.BoolVal(len(emo2) == 0 and len(raw2) == 0))))
+        clauses.append(("cover:reconfigured", True))
     # ---- C17 / C05 pairing
     if mode in ("quote_pair", "warm_pair"):
         lst2, sel2 = res["second"]
@@ -1252,11 +1295,15 @@ def obl_order(check, conv_table, thorough=False, budget_s=None):
     shapes += special_term_shapes(SPECIAL_TERMS[:6] if not thorough else SPECIAL_TERMS, **dict(kw, dict_max=1, selections=False))
     shapes += base_shapes([("", "")], [3], conv_table, **dict(kw, suffixes=True, prefix_kind="First", dict_max=0, emoji_names=False, emoticons=False, selections=False,
                                                            distinct=True, fixed={"smart_quote": False, "ansi": False, "include_english": False}))
+    # suffix-built words inherit the distance of their base: bases that are dictionary words with symbolic distances
+    shapes += base_shapes([("", "")], [3], conv_table, **dict(kw, suffixes=True, dict_max=1, emoji_names=False, emoticons=False, selections=False, autocorrect=False, user_autocorrect=False,
+                                                           distinct=True, fixed={"smart_quote": False, "ansi": False, "include_english": False}))
     check.bounds["assembly_order"] = dict(word="1 symbolic letter/digit (no suffix split points)", wrappers=[s["pre"] + "W" + s["trail"] for s in shapes],
                                           data="user/bundled auto-correct present or absent, 0-2 dictionary words with symbolic distances, emoticon / emoji name present or absent, learned selection any",
                                           options="English, ANSI, smart quotes symbolic")
     run_suggest_obligation(check, "assembly_order", shapes, ["cover:transliteration", "cover:emoticon", "cover:emoji_name", "cover:autocorrect_first"],
-                           confirmers={"autocorrect_entry_is_first": autocorrect_search, "no_candidate_twice": duplicate_search}, budget_s=budget_s)
+                           confirmers={"autocorrect_entry_is_first": autocorrect_search, "no_candidate_twice": duplicate_search,
+                                       "dictionary_candidates_carry_their_distance": suffix_rank_search}, budget_s=budget_s)
 
 
 def join_concrete(base, sfx):
@@ -1278,7 +1325,7 @@ def suffix_search(vs):
     memoised; every direct candidate of the base must appear joined."""
     keys = char_keys()
     data = bundled_data()
-    bases = ["boi", "kolom", "desh"]
+    bases = ["boi", "kolom", "desh", "hothat", "bidyut", "rong", "ma"]       # candidates ending in a vowel, a consonant, khanda-ta, anusvara, a vowel sign
     cfg = {"layout": "avro_phonetic", "database": REPO + "/data", "opts": {"phonetic_suggestion": True}}
     scs = []
     meta = []
@@ -1307,6 +1354,40 @@ def suffix_search(vs):
     return None
 
 
+def suffix_rank_search(vs):
+    """Native: a suffix-built candidate carries the rank number of its base (bases x every key of suffix.json, typed key by key so that the
+    base is memoised; rank numbers read from the state dump)."""
+    keys = char_keys()
+    data = bundled_data()
+    bases = ["boi", "kolom", "rag", "ghor"]
+    cfg = {"layout": "avro_phonetic", "database": REPO + "/data", "opts": {"phonetic_suggestion": True}}
+    scs, meta = [], []
+    for b2 in bases:
+        for sk, sv in list(data["suffix"].items())[:400]:
+            if any(ch not in keys for ch in sk):
+                continue
+            scs.append({"steps": [{"op": "new", "config": cfg}] + [{"op": "key", "key": keys[ch], "sel": 0} for ch in b2 + sk] + [{"op": "get_state"}]})
+            meta.append((b2, sk, sv))
+    for (b2, sk, sv), sc, r in zip(meta, scs, run_replay_parallel(scs, timeout=1800)):
+        rr = r["results"]
+        if any("panic" in x for x in rr):
+            continue
+        state = rr[-1].get("state", {})
+        ranks = state.get("suggestions", [])
+        own = set(t for _, t, _ in state.get("cache", {}).get(b2 + sk, []))
+        for kind, text, n in state.get("cache", {}).get(b2, []):
+            if kind != 2 or not text:
+                continue
+            j = join_concrete(text, sv)
+            if j is None or j in own:
+                continue
+            for k2, t2, n2 in ranks:
+                if t2 == j and k2 == 2 and n2 != n:
+                    return sc, rr[-2], ("typed %r = base %r + suffix %r: the base candidate %r has distance number %d, the joined form %r is ranked with %d (list %s)" % (
+                        b2 + sk, b2, sk, text, n, j, n2, rr[-2].get("suggestion", {}).get("list", [])[:8])), "suffix-built candidate does not inherit the distance of its base"
+    return None
+
+
 def obl_suffix(check, conv_table, thorough=False, budget_s=None):
     kw = dict(mode="single", dict_max=1, emoji_names=False, emoticons=False, autocorrect=False, user_autocorrect=False, selections=False,
               fixed={"include_english": False, "ansi": False}, dist_mode="fixed", distinct=True)
@@ -1320,7 +1401,7 @@ def obl_suffix(check, conv_table, thorough=False, budget_s=None):
                                            suffix_value="1 symbolic Bengali-block code point", wrappers=["W", "\"W\""])
     run_suggest_obligation(check, "assembly_suffix", shapes, ["cover:suffix_join"], budget_s=budget_s,
                            confirmers={"suffix_forms_complete": suffix_search, "memo_entry_holds_direct_candidates_only": stacked_suffix_search,
-                                       "memo_entry_is_keyed_by_the_word": warm_search})
+                                       "memo_entry_is_keyed_by_the_word": warm_search, "dictionary_candidates_carry_their_distance": suffix_rank_search})
 
 
 def emoji_search(vs):
@@ -1455,6 +1536,76 @@ def obl_quote_pair(check, conv_table, thorough=False, budget_s=None):
                                          data="0-1 dictionary word, emoji name / emoticon / learned selection present or absent", options="English, ANSI symbolic; smart quotes on vs off")
     run_suggest_obligation(check, "quote_pairing", shapes, ["cover:quote_pair"],
                            confirmers={"smart_quotes_keep_length_and_order": quote_pair_search, "smart_quotes_keep_preselection": quote_pair_search}, budget_s=budget_s)
+
+
+def reconfig_search(vs):
+    """Native: words (emoji names, emoticons, dictionary words, quoted words) typed under one option set, the options changed by
+    update_engine with the layout unchanged, the same words typed again: every list and preselection must be those of a context newly
+    created with the new options."""
+    keys = char_keys()
+    words = ["smile", "atm", "cool", "ami", "\"sesh\"", ":)", "rage", "boi."]
+    sets = [{"ansi": False, "english": False, "smart_quote": True}, {"ansi": True, "english": False, "smart_quote": True},
+            {"ansi": False, "english": True, "smart_quote": True}, {"ansi": False, "english": False, "smart_quote": False},
+            {"ansi": True, "english": True, "smart_quote": False}]
+
+    def cfg(o):
+        return {"layout": "avro_phonetic", "database": REPO + "/data", "opts": dict(o, phonetic_suggestion=True)}
+    scs, meta = [], []
+    for a in sets:
+        for b in sets:
+            if a == b:
+                continue
+            steps = [{"op": "new", "ctx": 0, "config": cfg(a)}]
+            for w in words:
+                steps += [{"op": "key", "ctx": 0, "key": keys[ch], "sel": 0} for ch in w] + [{"op": "finish", "ctx": 0}]
+            steps += [{"op": "update", "ctx": 0, "config": cfg(b)}, {"op": "new", "ctx": 1, "config": cfg(b)}]
+            marks = []
+            for w in words:
+                for cx in (0, 1):
+                    steps += [{"op": "key", "ctx": cx, "key": keys[ch], "sel": 0} for ch in w]
+                    marks.append((w, cx, len(steps) - 1))
+                    steps.append({"op": "finish", "ctx": cx})
+            scs.append({"steps": steps})
+            meta.append((a, b, marks))
+    for (a, b, marks), sc, r in zip(meta, scs, run_replay_parallel(scs)):
+        rr = r["results"]
+        if any("panic" in x for x in rr):
+            p = [x for x in rr if "panic" in x][0]
+            return sc, p, "options %s changed to %s by update_engine: panic: %s" % (json.dumps(a), json.dumps(b), p["panic"]), "reconfiguration: panic"
+        for i in range(0, len(marks), 2):
+            (w, _, ia), (_, _, ib) = marks[i], marks[i + 1]
+            x, y = rr[ia].get("suggestion", {}), rr[ib].get("suggestion", {})
+            if (x.get("list"), x.get("sel"), x.get("preedit")) != (y.get("list"), y.get("sel"), y.get("preedit")):
+                return sc, [rr[ia], rr[ib]], ("%r typed under options %s, then the options changed to %s by update_engine (same layout) and %r typed again: the context offers %s "
+                                             "(preselected %s, pre-edit %s); a context newly created with the new options offers %s (preselected %s, pre-edit %s)" % (
+                                                 w, json.dumps(a), json.dumps(b), w, x.get("list", [])[:5], x.get("sel"), (x.get("preedit") or [])[:2],
+                                                 y.get("list", [])[:5], y.get("sel"), (y.get("preedit") or [])[:2])), "an option change does not take effect for a word typed before it"
+    return None
+
+
+def obl_reconfig(check, conv_table, thorough=False, budget_s=None):
+    """`suggest` on one object under two configurations in a row (update_engine with the layout unchanged keeps the object and its memo)."""
+    kw = dict(mode="reconfig_pair", dict_max=1, emoji_count=1, selections=False, dist_mode="fixed", distinct=True, suffixes=False, autocorrect=False, user_autocorrect=False)
+    shapes = []
+    # the options before the change are enumerated (one shape each, so that the pool can spread them), the ones after it are symbols
+    for ansi1 in (False, True):
+        for eng1 in (False, True):
+            f1 = {"ansi": ansi1, "include_english": eng1, "smart_quote": False}
+            shapes += base_shapes([("", "")], [1] + ([2] if thorough else []), conv_table, **dict(kw, emoticons=False, selections=True, fixed=f1, fixed2={"smart_quote": False}))
+            if thorough:
+                shapes += base_shapes([("(", ")")], [1], conv_table, **dict(kw, fixed=f1, fixed2={"smart_quote": False}, selections=True))
+        shapes += base_shapes([("", "")], [3], conv_table, **dict(kw, suffixes=True, emoji_names=False, emoticons=False,
+                                                               fixed={"ansi": ansi1, "include_english": False, "smart_quote": False}, fixed2={"include_english": False, "smart_quote": False}))
+        shapes += special_term_shapes(SPECIAL_TERMS[:3], **dict(kw, fixed={"ansi": ansi1, "include_english": False, "smart_quote": False}, fixed2={"include_english": False, "smart_quote": False}))
+    for sq1 in (False, True):
+        shapes += base_shapes([("\"", "\"")], [1], conv_table, **dict(kw, emoji_names=False, emoticons=False, selections=True,
+                                                                     fixed={"ansi": False, "include_english": False, "smart_quote": sq1}, fixed2={"ansi": False, "include_english": False}))
+    check.bounds["reconfiguration"] = dict(word="1%s symbolic letters/digits (3 with suffix split points)" % ("-2" if thorough else ""), wrappers=["W", "\"W\""],
+                                           options="English, ANSI, smart quotes: independent symbols before and after the change",
+                                           data="0-1 dictionary word, emoji name / emoticon / learned selection present or absent")
+    run_suggest_obligation(check, "reconfiguration", shapes, ["cover:reconfigured"], budget_s=budget_s,
+                           confirmers={"reconfigured_context_gives_the_list_of_a_new_one": reconfig_search, "reconfigured_context_gives_the_preselection_of_a_new_one": reconfig_search,
+                                       "ansi_offers_no_emoji_or_raw_text": reconfig_search})
 
 
 def obl_warm(check, conv_table, thorough=False, budget_s=None):
@@ -2121,6 +2272,29 @@ def fixed_list_search(vs):
                 en, t, st.get("buffer"), lst)), "fixed assembly: ansi_offers_no_emoji_or_raw_text"
         if not ansi and emo is not None and emo not in emoji_items:
             return sc, last, ("fixed mode (English %s): the keys %r are the emoticon of %r, the list is %s" % (en, t, emo, lst)), "fixed assembly: emoticon_offers_its_emoji"
+    # traditional joining on: compositions in which a ligature-making sign ends up without a non-joiner in front of it (typed after a
+    # chandrabindu that automatic chandrabindu moves behind it; at the start of the text without automatic vowels): the first candidate
+    # is still the text exactly as composed
+    trad_scs, trad_meta = [], []
+    for t in ("পঁু", "কঁূ", "তঁৃ", "ু", "কু", "পঁুল", "হঁু"):
+        if any(ch not in keys for ch in t):
+            continue
+        for vowel in (True, False):
+            for chandra in (True, False):
+                cfg = {"layout": os.path.join(REPO, "data", "Probhat.json"), "database": REPO + "/data",
+                       "opts": {"fixed_suggestion": True, "smart_quote": False, "kar": True, "vowel": vowel, "chandra": chandra}}
+                trad_scs.append({"steps": [{"op": "new", "config": cfg}] + [{"op": "key", "key": keys[ch][0], "mod": keys[ch][1]} for ch in t] + [{"op": "get_state"}]})
+                trad_meta.append((t, vowel, chandra))
+    for (t, vowel, chandra), sc, r in zip(trad_meta, trad_scs, run_replay_parallel(trad_scs)):
+        rr = r["results"]
+        last = rr[-2]
+        if "panic" in last:
+            return sc, last, "fixed mode: typing %r panics: %s" % (t, last["panic"]), None
+        st = rr[-1].get("state", {})
+        lst = [x for k, x, n in st.get("suggestions", [])]
+        if st.get("buffer") and (not lst or lst[0] != st["buffer"]):
+            return sc, last, ("fixed mode (traditional joining on, automatic vowels %s, automatic chandrabindu %s): the keys of %r compose %r; the first candidate is %r" % (
+                vowel, chandra, t, st["buffer"], lst[:1])), "fixed assembly: first_candidate_is_the_composed_text"
     res = run_replay_parallel(scs)
 
     def curl(t, closing):
@@ -2691,6 +2865,17 @@ def obl_empty_strings(check, conv_table, budget_s=None):
              ("user auto-correct entry with an empty value", [{"op": "write_user_file", "name": "autocorrect.json", "content": "{\"a\":\"\"}"}], "aer"),
              ("learned entry with an empty key and value", [{"op": "write_user_file", "name": "phonetic-candidate-selection.json", "content": "{\"\":\"\"}"}], "er")]
     found = []
+    # the same files appearing while the context is live, picked up by a re-configuration (the auto-correct list is the only file read again)
+    late = [("user auto-correct entry with an empty value, loaded by update_engine", [{"op": "new", "config": cfg},
+             {"op": "write_user_file", "name": "autocorrect.json", "content": "{\"a\":\"\"}", "mtime_plus": 5}, {"op": "update", "config": cfg}], "aer"),
+            ("user auto-correct entry with an empty key and value, loaded by update_engine", [{"op": "new", "config": cfg},
+             {"op": "write_user_file", "name": "autocorrect.json", "content": "{\"\":\"\",\"btw\":\"\"}", "mtime_plus": 5}, {"op": "update", "config": cfg}], "btwra")]
+    for what, steps0, text in late:
+        sc = {"steps": steps0 + typ(text) + [{"op": "backspace"}] * 2 + typ("er")}
+        rr = run_replay([sc])[0]["results"]
+        p = [x for x in rr if "panic" in x]
+        if p:
+            found.append((what, sc, p[0]))
     for what, files, text in tries:
         sc = {"steps": files + [{"op": "new", "config": cfg}] + typ(text)}
         rr = run_replay([sc])[0]["results"]
